@@ -70,6 +70,23 @@ func propC14(ch core.Chooser, st *core.Stats) error {
 			return nil
 		})
 	}
+	// drawn: a bulk of extra keys, so that the index has several buckets and a scan crosses
+	// bucket boundaries while the caller still holds what earlier Next calls returned
+	if core.Pct(ch, "bulk", 40) {
+		nb := ch.Int("bulk_n", 25, 90)
+		for j := 0; j < nb; j++ {
+			k := []byte(fmt.Sprintf("bulk-%03d", j))
+			v := []byte(mkValue(10000+j, core.PickInt(ch, "bulk_vlen", []int{1, 8, 40})))
+			model[string(k)] = string(v)
+			if err := core.Safe(func() error { return db.Put(k, v) }); err != nil {
+				return fmt.Errorf("Put failed: %v", err)
+			}
+			scribble(k)
+			scribble(v)
+		}
+		ch.Note("bulk of %d extra keys", nb)
+		st.Count("histories_with_bulk", 1)
+	}
 	steps := ch.Int("steps", 1, core.Scale(80, 300))
 	for i := 0; i < steps; i++ {
 		switch core.Weighted(ch, "op", []int{8, 3, 4, 3, 2, 2, 1, 1}) {
@@ -136,6 +153,9 @@ func propC14(ch core.Chooser, st *core.Stats) error {
 			keep("GetAppend", v)
 		case 4:
 			n := ch.Int("iter_n", 1, 12)
+			if core.Pct(ch, "iter_full", 35) {
+				n = 400 // a complete scan: everything it returns is retained while it goes on
+			}
 			ch.Note("iterate %d items -> retained", n)
 			err := core.Safe(func() error {
 				it := db.Items()
@@ -156,6 +176,9 @@ func propC14(ch core.Chooser, st *core.Stats) error {
 				return nil
 			})
 			if err != nil {
+				return err
+			}
+			if err := verify("after the scan"); err != nil {
 				return err
 			}
 		case 5:
